@@ -2,6 +2,7 @@
 
 mod codec_table;
 mod dump;
+mod dwarf;
 mod fields;
 mod gen_instrs;
 mod mkmod;
@@ -46,7 +47,7 @@ pub fn panic_message(p: &Box<dyn Any + Send>) -> String {
 
 fn usage() -> ! {
     eprintln!(
-        "usage:\n  vreplay codec-table\n  vreplay op-roundtrip <witness.json> [--emit-wasm <out.wasm>]\n  vreplay roundtrip <file.wasm|file.wat> [--gc] [--no-names] [--no-producers] [--twice]\n  vreplay build <spec.json> -o <out.wasm>\n  vreplay script <script.json>\n  vreplay consts"
+        "usage:\n  vreplay codec-table\n  vreplay op-roundtrip <witness.json> [--emit-wasm <out.wasm>]\n  vreplay roundtrip <file.wasm|file.wat> [--gc] [--no-names] [--no-producers] [--twice]\n  vreplay build <spec.json> -o <out.wasm>\n  vreplay script <script.json>\n  vreplay dwarf <script.json>\n  vreplay consts"
     );
     exit(2)
 }
@@ -173,6 +174,18 @@ fn main() {
                 Ok(n) => eprintln!("vreplay build: wrote {} bytes to {}", n, out),
                 Err(e) => {
                     eprintln!("vreplay build: {}", e);
+                    exit(2);
+                }
+            }
+        }
+        "dwarf" => {
+            if args.len() != 2 {
+                usage();
+            }
+            match dwarf::run(&args[1]) {
+                Ok(v) => println!("{}", serde_json::to_string_pretty(&v).unwrap()),
+                Err(e) => {
+                    eprintln!("vreplay dwarf: {}", e);
                     exit(2);
                 }
             }
